@@ -895,5 +895,7 @@ RULES = [
     ("C01.const", rule_const),
     ("C01.bpreg", rule_bpreg),
     ("C01.membarrier", rule_membarrier),
+    # the registry the grace period scans, moves readers out of and splices back is only as good as the list primitives
+    ("C01.registry", lambda c, r: pat.shared(__import__("sa.rules.c15", fromlist=["x"]).rule_listops, "C01.registry")(c, r)),
 ]
 FLOORS = {}
